@@ -72,6 +72,6 @@ MANIFEST_ENTRY = dict(
     category='other',
     engine='bounded',
     technique='sidecar contracts on the real functions: wiring / closed-form obligations from the AST discharged by z3 and the ring normaliser where the functions are within reach; bounded run-time contracts with independent oracles for the rest (never counted as proved)',
-    text='Discharged from the real source on every run (all values, stated small shapes): closed forms of phi_1D_snm, phi_1D_genic (interior, both regimes), dispatch h=0.5 -> genic, gamma=0 -> snm incl. beta; the 1-D kernel implicit_1Dx against the shared C contracts (V with beta, M, delj, a/b/c, solve, frame, bounds); one step and two consecutive steps of one_pop (influx then kernel, dt and parameters re-evaluated at each step), dispatch of all-scalar parameters to the constant integrator slot by slot; _one_pop_const_params system (n=4). Bounded run-time contracts (never counted as proved): One-population spectra against the exact Kingman coalescent expectation and the closed-form selection equilibrium, first-order convergence in the time step, phi_1D continuity/finite/non-negative over the gamma grid, stationarity under further integration.',
+    text='Discharged from the real source on every run (all values, stated small shapes): closed forms of phi_1D_snm, phi_1D_genic (every entry incl. the x = 1 limit, both regimes), the general-dominance branch of phi_1D (quad axiom with integrand / limit checks, overflow guard on the rescaled gamma, every entry), dispatch h=0.5 -> genic, gamma=0 -> snm incl. beta; the 1-D kernel implicit_1Dx against the shared C contracts (V with beta, M, delj, a/b/c, solve, frame, bounds); one step and two consecutive steps of one_pop (influx then kernel, dt and parameters re-evaluated at each step), dispatch of all-scalar parameters to the constant integrator slot by slot; _one_pop_const_params system (n=4) and two consecutive steps. Bounded run-time contracts (never counted as proved): One-population spectra against the exact Kingman coalescent expectation and the closed-form selection equilibrium, first-order convergence in the time step, phi_1D continuity/finite/non-negative over the gamma grid, stationarity under further integration.',
     note='bounded: see coverage.bounded.drivers[].bound in the evidence file for the exact domain of every driver',
 )
